@@ -77,6 +77,10 @@ Definition rif {A} (c : option bool) (a b : option A) : option A :=
 Definition layout := list (N * N).
 Definition layout_len (l : layout) : N := fold_right (fun f acc => snd f + acc) 0 l.
 
+(* what a body parser reads from the buffer, in the order it does: `get_uN()` (N/8 bytes,
+   big-endian), `split_to(key_length)`, `split_to(get_value_len())` *)
+Inductive bread := RdU (w : nat) | RdKey | RdValue.
+
 (* `let x = e;` evaluated where it stands *)
 Definition rbind {A B} (a : option A) (f : A -> option B) : option B :=
   match a with Some x => f x | None => None end.
